@@ -70,7 +70,7 @@ func Load(repoDir string, overlay map[string][]byte, patterns []string) (*Progra
 	}
 	prog, spkgs := ssautil.AllPackages(pkgs, ssa.InstantiateGenerics)
 	prog.Build()
-	p := &Program{Prog: prog, Stubs: map[string]*ssa.Function{}, RepoPath: RepoModule}
+	p := &Program{Prog: prog, Stubs: map[string]*ssa.Function{}, Guards: map[string]*ssa.Function{}, RepoPath: RepoModule}
 	// stub annotations: //verif:stub <target> on function declarations in overlay files
 	packages.Visit(pkgs, nil, func(pk *packages.Package) {
 		if !strings.HasPrefix(pk.PkgPath, RepoModule) {
@@ -93,11 +93,23 @@ func Load(repoDir string, overlay map[string][]byte, patterns []string) (*Progra
 					}
 					target := strings.TrimSpace(strings.TrimPrefix(txt, "verif:stub "))
 					target = strings.ReplaceAll(target, "$R", RepoModule)
+					guard := ""
+					if i := strings.Index(target, " if "); i >= 0 {
+						guard = strings.TrimSpace(target[i+4:])
+						target = strings.TrimSpace(target[:i])
+					}
 					fn := sp.Func(fd.Name.Name)
 					if fn == nil {
 						continue
 					}
 					p.Stubs[target] = fn
+					if guard != "" {
+						g := sp.Func(guard)
+						if g == nil {
+							panic("stub guard not found: " + guard)
+						}
+						p.Guards[target] = g
+					}
 				}
 			}
 		}
